@@ -17,7 +17,7 @@ RULE = ("Generated operation sequences (<= 30 steps) on a ComposeInfo and a refe
         "satisfies arch and type filter, and with no filter (or arch 'src') return exactly the level / whole forest. "
         "Non-trivial = history with a refused add, a depth-3 variant and a filtered recursive query; distinct = SHA-1 of "
         "the sequence. A 'recover' operation has a nested variant refuse an incomplete variant (TypeError/ValueError), completes it and adds it validly at the top level. Forests also go on as deepcopy / pickle copies of themselves (nothing in the copy refers to the original); the compose itself is a frequent query receiver and an arch filter alone must lose nothing.")
-ASSUMPTIONS = ["the element returned for the pseudo-type 'self' is the receiver itself and is not subject to the arch filter (docstring: 'include the top-level (self) variant as well')",
+ASSUMPTIONS = ["the element returned for the pseudo-type 'self' is the receiver itself; it is subject to the arch filter like everything else that is returned",
                "an already attached child variant is never re-added to the top-level container (not one of the refusals the statement lists)"]
 FLOORS = {"history": 100, "history:refused:foreign-arch-first-child": 30, "history:refused:ancestor": 30, "history:depth3": 150,
           "history:dashed-top": 100, "history:roundtrip": 200}
@@ -38,7 +38,7 @@ op_strategy = st.one_of(
     st.fixed_dictionaries({"op": st.just("child"), "parent": st.integers(0, 30), "id": st.sampled_from(IDS), "type": _type, "sel": _sel}),
     st.fixed_dictionaries({"op": st.just("bad"), "kind": st.sampled_from(["dup-id", "foreign-arch", "foreign-arch", "misaligned-uid", "ancestor", "ancestor", "self",
                                                                             "elsewhere", "malformed-id", "blank-name", "unknown-type", "empty-arches", "top-misaligned",
-                                                                            "recover", "recover", "dup-dashed-id", "dup-dashed-id", "dup-uid-top", "dup-uid-top", "child-again-at-top"]),
+                                                                            "recover", "recover", "dup-dashed-id", "dup-dashed-id", "dup-uid-top", "dup-uid-top", "child-again-at-top", "again-under-another-key", "again-under-another-key"]),
                            "target": st.integers(0, 30), "other": st.integers(0, 30), "id": st.sampled_from(IDS)}),
     st.just({"op": "roundtrip"}),
     st.sampled_from([{"op": "roundtrip", "via": "deepcopy"}, {"op": "roundtrip", "via": "pickle"}]),      # the forest goes on as a copy of itself
@@ -268,6 +268,16 @@ def history_case(case):
                     continue
                 refuses("add-child-again-at-top", (ValueError,), ci.variants.add, objs[nested[op["other"] % len(nested)]])
                 labels.add("refused:child-again-at-top")
+            elif bad == "again-under-another-key":
+                # a top-level variant that is already there offered once more under another key (its UID, as the reader does, or any name)
+                tops = sorted(u for u in uids if forest.nodes[u]["parent"] is None)
+                if not tops:
+                    continue
+                t = tops[op["other"] % len(tops)]
+                have = [k for k, v in ci.variants.variants.items() if v is objs[t]]
+                key = [k for k in (t, forest.nodes[t]["id"], "Other") if k not in have][0]
+                refuses("add-again-under-another-key", (ValueError,), ci.variants.add, objs[t], key)
+                labels.add("refused:again-under-another-key")
             elif bad == "dup-dashed-id":
                 # a second top-level variant with the id of an existing dashed one ('ServerTools' of 'Server-Tools'): duplicate id
                 dashed = sorted(u for u in uids if forest.nodes[u].get("dashed"))
@@ -340,6 +350,9 @@ def history_case(case):
             for v in got:
                 if on is not None and v is objs[on]:
                     check("self" in types, "query-unrequested-self", "step %d: receiver returned although 'self' was not requested" % step)
+                    # "everything it returns has the requested architecture": the receiver is no exception
+                    check(not op["arch"] or op["arch"] == "src" or op["arch"] in v.arches, "query-arch-filter",
+                          lambda: "step %d: receiver %r returned as 'self' lacks arch %r" % (step, v.uid, op["arch"]))
                     continue
                 check(v.uid in scope, "query-out-of-scope", lambda: "step %d: %r is not below the receiver (recursive=%r)" % (step, v.uid, op["recursive"]))
                 if op["arch"] and op["arch"] != "src":
@@ -355,7 +368,7 @@ def history_case(case):
                 having = sorted(u for u in scope if op["arch"] in forest.nodes[u]["arches"])
                 check(sorted(ulist) == having, "query-incomplete", lambda: "step %d: arch=%r (recursive=%r) returned %r, variants having it: %r" % (
                     step, op["arch"], op["recursive"], ulist, having))
-            if "self" in types and on is not None:
+            if "self" in types and on is not None and (not op["arch"] or op["arch"] == "src" or op["arch"] in forest.nodes[on]["arches"]):
                 check(objs[on] in got, "query-self-missing", "step %d: 'self' requested but receiver not returned" % step)
             if op["recursive"] and (op["arch"] not in (None,) or real_types) and got:
                 filtered_recursive_query = True
